@@ -395,14 +395,16 @@ def base_changes(loaded: dict, found: dict, disk: Disk, mode: str | None) -> tup
     return must, opt
 
 
-def close_changes(base: dict, loaded: dict, found: dict, use_wanted: bool) -> dict:
-    """Package widening + closure over importers. ctx -> {"op", "place", "via"} (first reason found, fixed order)."""
+def close_changes(base: dict, loaded: dict, found: dict, use_wanted: bool, soft: frozenset = frozenset()) -> dict:
+    """Package widening + closure over importers. ctx -> {"op", "place", "via"} (first reason found, fixed order).
+
+    ``soft``: contexts the closure does not enter (used for the lower bound only, see expectation())."""
     changed = {ctx: {"op": r["op"], "place": r["place"], "via": "direct"} for ctx, r in base.items()}
     work = sorted(base)
     universe = sorted(set(loaded) | set(found))
 
     def add(ctx, cause, hop):
-        if ctx in changed:
+        if ctx in changed or ctx in soft:
             return
         via = cause["via"]
         via = hop if via == "direct" else (via if via.split("+")[-1] == hop else f"{via}+{hop}")
@@ -479,7 +481,12 @@ def reachable_from_autoload(loaded: dict) -> set:
 def expectation(loaded: dict, disk: Disk, mode: str | None) -> dict:
     found = discover(disk)
     must_base, opt_base = base_changes(loaded, found, disk, mode)
-    must_changed = close_changes(must_base, loaded, found, use_wanted=False)
+    soft = frozenset()
+    if mode is not None and mode != "*":
+        # "other changes are ignored" v. "all other files in the module or app [are reloaded]": a dependent context
+        # whose own file is gone (an ignored deletion) may be kept or discarded; the lower bound stops there
+        soft = frozenset(c for c in loaded if c not in found and c != mode)
+    must_changed = close_changes(must_base, loaded, found, use_wanted=False, soft=soft)
     may_base = dict(opt_base)
     may_base.update(must_base)
     may_changed = close_changes(may_base, loaded, found, use_wanted=True)
